@@ -17,4 +17,18 @@ PROPS = {
         ],
         "trusted_base": ["Model/Ham.v transcription of qmc_runner.rs Interaction::{new,new_offset,new_diagonal,new_diagonal_offset,at,sym_under_ising}"],
     },
+    "C08": {
+        "harness_cmd": "c08",
+        "property_files": ["C08.v"],
+        "expected_theorems": [
+            "C08_metropolis_balance", "C08_heatbath_balance", "C08_offdiag_untouched_metropolis",
+            "C08_offdiag_untouched_heatbath", "C08_count_is_live", "C08_weight_le_maxweight",
+            "C08_empty_slot_headroom", "C08_acceptances_are_probabilities",
+        ],
+        "assumptions": [
+            "weights, beta are dyadic rationals so that every f64 product the code forms is exact; quotients are compared with a 2^-40 tolerance",
+            "containers are never longer than the cutoff (a user-lowered cutoff via set_cutoff is outside the property)",
+        ],
+        "trusted_base": ["Model/Diagonal.v transcription of diagonal.rs / heatbath.rs; rand 0.8.8 gen_range / gen_bool decoding in Model/Prog.v"],
+    },
 }
